@@ -550,6 +550,14 @@ class Frame:
         if c.startswith("'"):
             ch = _unescape(c[1:-1]).decode('utf-8')
             return mk_int(ord(ch), 'char')
+        mg = re.match(r'^\{alloc\d+: &(.*)\}$', c)
+        if mg:
+            # the address of a static: the harness provides the object
+            tk = type_key(mg.group(1))
+            g = getattr(ex, 'globals', {})
+            if tk in g:
+                return Ref(g[tk], (), False)
+            raise Unsupported('static of type %s has no model' % tk)
         if c.startswith('ZeroSized: '):
             ty = c[len('ZeroSized: '):].strip()
             if ty.startswith('{closure@'):
